@@ -104,6 +104,11 @@ func c02RandFlow(rng *rand.Rand, defs []c02Def, maxLen int) []c02Node {
 			}
 		case x < 10: // a filter that may be undefined
 			nd.Filter = c02Pick(rng, c02TraceFilters)
+		case len(defs) == 0: // a pipeline without filters: only built-in nodes are valid
+			nd.Filter = "END"
+			if rng.Intn(6) == 0 {
+				nd.Alias = c02Pick(rng, c02TraceAliases)
+			}
 		default:
 			nd.Filter = defs[rng.Intn(len(defs))].Name
 		}
@@ -206,12 +211,24 @@ func TestVerifC02Trace(t *testing.T) {
 	for ci := 0; ci < nCfg; ci++ {
 		defs := c02RandDefs(rng)
 		hasB, hasA := rng.Intn(100) < 35, rng.Intn(100) < 35
-		flows := map[string][]c02Node{"m": c02RandFlow(rng, defs, 10), "b": {}, "a": {}}
-		if hasB {
-			flows["b"] = c02RandFlow(rng, defs, 4)
+		if rng.Intn(100) < 3 {
+			defs = nil // a main pipeline without filters
 		}
-		if hasA {
-			flows["a"] = c02RandFlow(rng, defs, 4)
+		// the before / after pipelines are specifications of their own: mostly they declare the filters of
+		// the main pipeline, sometimes filters of their own (same names, other kinds), sometimes none
+		sdefs := map[string][]c02Def{"m": defs, "b": {}, "a": {}}
+		flows := map[string][]c02Node{"m": c02RandFlow(rng, defs, 10), "b": {}, "a": {}}
+		for _, sg := range []string{"b", "a"} {
+			if (sg == "b" && !hasB) || (sg == "a" && !hasA) {
+				continue
+			}
+			switch x := rng.Intn(100); {
+			case x < 60:
+				sdefs[sg] = defs
+			case x < 85:
+				sdefs[sg] = c02RandDefs(rng)
+			}
+			flows[sg] = c02RandFlow(rng, sdefs[sg], 4)
 		}
 		acc := vx.M{"b": true, "m": true, "a": true}
 		pipes := map[string]*Pipeline{}
@@ -220,7 +237,7 @@ func TestVerifC02Trace(t *testing.T) {
 			if (sg == "b" && !hasB) || (sg == "a" && !hasA) {
 				continue
 			}
-			p, _, rej, crash := c02Build(sg, defs, flows[sg])
+			p, _, rej, crash := c02Build(sg, sdefs[sg], flows[sg])
 			if crash != nil {
 				// an accepted specification that cannot be created: logged as accepted; the request
 				// log that follows is empty, which the contract does not allow for a runnable flow
@@ -233,7 +250,7 @@ func TestVerifC02Trace(t *testing.T) {
 				pipes[sg] = p
 			}
 		}
-		w.Emit(vx.M{"ev": "cfg", "acc": acc, "cfg": vx.M{"defs": c02DefsJSON(defs), "hasB": hasB, "hasA": hasA,
+		w.Emit(vx.M{"ev": "cfg", "acc": acc, "cfg": vx.M{"defs": c02DefsJSON(defs), "db": c02DefsJSON(sdefs["b"]), "da": c02DefsJSON(sdefs["a"]), "hasB": hasB, "hasA": hasA,
 			"b": c02NodesJSON(flows["b"]), "m": c02NodesJSON(flows["m"]), "a": c02NodesJSON(flows["a"])}})
 		if all && pipes["m"] != nil {
 			bias := rng.Intn(60) + 20 // percentage of normal ("") results
